@@ -6,6 +6,8 @@ import (
 	"encoding/hex"
 	"fmt"
 	"strings"
+	"sync"
+	"sync/atomic"
 
 	"perkeep.org/pkg/blob"
 )
@@ -20,6 +22,8 @@ type pattern struct {
 
 // scanner looks for plaintext material in byte strings stored below the encrypt store.
 type scanner struct {
+	mu      sync.RWMutex          // scans also run on the goroutines of the store under test (writes handed to the wrapped stores)
+	refs    []blob.Ref            // plaintext index -> ref
 	wins    map[[win]byte]int32   // every 12-byte window of every plaintext -> plaintext index
 	pfx     map[[win]byte][]int32 // first 12 bytes of a ref pattern -> pattern indices
 	pats    []pattern
@@ -34,6 +38,12 @@ func newScanner() *scanner {
 // addPlain registers a plaintext blob.  Bytes in [exLo,exHi) are deliberately excluded from the
 // content windows (used for the one plaintext that quotes the NAME of a lower blob).
 func (s *scanner) addPlain(pi int, ref blob.Ref, data []byte, exLo, exHi int) {
+	s.mu.Lock()
+	defer s.mu.Unlock()
+	for len(s.refs) <= pi {
+		s.refs = append(s.refs, blob.Ref{})
+	}
+	s.refs[pi] = ref
 	s.nPlain++
 	var k [win]byte
 	for i := 0; i+win <= len(data); i++ {
@@ -72,7 +82,9 @@ type hit struct {
 
 // scan returns the first plaintext material found in b.
 func (s *scanner) scan(b []byte) (hit, bool) {
-	s.scanned += int64(len(b))
+	atomic.AddInt64(&s.scanned, int64(len(b)))
+	s.mu.RLock()
+	defer s.mu.RUnlock()
 	var k [win]byte
 	for i := 0; i+win <= len(b); i++ {
 		copy(k[:], b[i:i+win])
@@ -126,4 +138,60 @@ func (in *inst) leakCheckAll(sc *scanner, plains []plain, when string) {
 
 func (in *inst) leakCheckAll1(sc *scanner, l *lowStore, plains []plain, when string) {
 	in.leakCheck(sc, l, l.refs(), plains, when)
+}
+
+func (s *scanner) refOf(pi int) blob.Ref {
+	s.mu.RLock()
+	defer s.mu.RUnlock()
+	if pi < len(s.refs) {
+		return s.refs[pi]
+	}
+	return blob.Ref{}
+}
+
+func (s *scanner) takeScanned() int {
+	return int(atomic.SwapInt64(&s.scanned, 0))
+}
+
+// handed scans something the encrypt store HANDS to a wrapped store, whether or not it ends up
+// stored: the name and the body of every write (before any fault decides its fate), the names asked
+// for in Fetch / StatBlobs / RemoveBlobs and the enumeration cursor.  Each distinct name is scanned
+// once per store instance.
+func (in *inst) handed(l *lowStore, op, arg string, b []byte, isName bool) {
+	sc := in.sc
+	if sc == nil || len(b) == 0 {
+		return
+	}
+	in.r.Note("leak_monitor", "handed/"+l.name+"/"+op+"/"+arg)
+	if isName {
+		in.argMu.Lock()
+		if in.argSeen == nil {
+			in.argSeen = map[string]bool{}
+		}
+		seen := in.argSeen[string(b)]
+		in.argSeen[string(b)] = true
+		in.argMu.Unlock()
+		if seen {
+			return
+		}
+		in.r.Count("handed_names_scanned", 1)
+	} else {
+		in.r.Count("handed_bodies_scanned", 1)
+	}
+	in.r.Eval(1)
+	h, ok := sc.scan(b)
+	if !ok {
+		return
+	}
+	lo, hi := h.Off-16, h.Off+48
+	if lo < 0 {
+		lo = 0
+	}
+	if hi > len(b) {
+		hi = len(b)
+	}
+	pref := sc.refOf(h.PI)
+	in.r.Violation(fmt.Sprintf("leak/%s-handed-to-%s/%s", h.What, l.name, arg),
+		fmt.Sprintf("the encrypt store hands %s of plaintext blob %s to the wrapped %q store as the %s of %s (offset %d: %q)", h.What, pref, l.name, arg, op, h.Off, b[lo:hi]),
+		map[string]any{"case_id": in.id, "lower_store": l.name, "op": op, "argument": arg, "hit": h, "plaintext": pref.String()})
 }
